@@ -459,7 +459,7 @@ def model_correspondence(ctx, exe, rng):
     k = 1
     usable = []
     for h in hists:
-        fields = ["session", "200000", common.hexs(defs)]
+        fields = ["session", "200000", "11", common.hexs(defs)]
         ok = True
         for s in h:
             if s.startswith(":replace "):
@@ -483,8 +483,8 @@ def model_correspondence(ctx, exe, rng):
     rc, model, err = common.run_lines(mdl, [], lines, timeout=900, shards=common.NCPU)
 
     def run_impl(h):
-        rs, died, err, rc = oracle.run_history(exe, [req_run(d) for d in M_DEFS.strip().split("\n")] + [req_run(s) for s in h])
-        return rs[len(M_DEFS.strip().split("\n")):], died
+        rs, died, err, rc = oracle.run_history(exe, [req_run(M_DEFS)] + [req_run(s) for s in h])
+        return rs[1:], died
     with concurrent.futures.ThreadPoolExecutor(common.NCPU) as ex:
         impl = list(ex.map(run_impl, hists))
     bad = []
@@ -500,7 +500,8 @@ def model_correspondence(ctx, exe, rng):
         if "outoffuel" in ml:
             ctx.stat("model out-of-fuel")
             continue
-        ml_resp, _, wf = ml.partition("\t")
+        parts = ml.split("\t")
+        ml_resp, wf = parts[0], (parts[1] if len(parts) > 1 else "?")
         ctx.stat("model compared")
         ctx.stat("model wf-flags:" + wf)
         ctx.case({"model_history": h}, True)
